@@ -528,6 +528,184 @@ def PubSubSubscriptionOwner := subscriptionIn nsPubsubOwner [
   .attr (s "jid") .str false, .attr (s "subscription") (.enum subscriptionStates) true]
 
 
+/-! ### stanza envelopes: typed fields + the REST (unknown children kept as `QXmppElement`s)
+
+`QXmppIq` (src/base/QXmppIq.cpp:82-130, QXmppStanza::parse): `id`, `to`, `from`, `type` (unknown / absent ⇒ get, always
+written), every child except `<error/>` elements as an extension (since /repo c75793d ALL of them are skipped), then the
+error (first `<error/>`, `StanzaError` above).  `xml:lang` is neither read (`attribute("lang")` finds nothing) nor written.
+The stanza has no namespace declaration of its own: it lives in the stream's `jabber:client`. -/
+
+def iqTypes : List Str := ["error", "get", "set", "result"].map s
+def errorGuard : ChildMode := .wrapGuard [false, true, false, true]
+def Iq : Schema :=
+  { head := inhHead "iq" nsClient, check := .unchecked, inh := nsClient,
+    fields := [.attr (s "id") .str true, .attr (s "to") .str true, .attr (s "from") .str true,
+      .attr (s "type") (.enumD iqTypes 1) false,
+      .rest nsClient [⟨some (s "error"), none⟩],
+      .child (anyHead "error" nsClient) stanzaErrorFields errorGuard] }
+
+/-! `QXmppPresence` (src/base/QXmppPresence.cpp:438-646).  `parse` loops over ALL children, by tag name alone for show /
+status / priority (last one wins), by tag and namespace for the extensions (last one wins); what it does not know goes to
+the extensions.  Typed here: type (absent / unknown ⇒ available), `xml:lang`, id, to, from; show, status, priority
+(`toInt()`, written when ≠ 0); error; MUC `<x/>` (password) and MUC-user `<x/>` (item, status codes); entity capabilities
+`<c/>` (written only when hash, node and ver are ALL set: `wrapAll`; `ext` is read and never written); XEP-0283 moved;
+XEP-0319 idle; MIX presence; XEP-0033 addresses (only addresses with jid and type: `attrReq`).  Claimed by the class but
+NOT modelled (documents with them are outside the schema): vCard update `<x/>` (hex hash), Muji (Jingle contents). -/
+
+def nsMuc := s "http://jabber.org/protocol/muc"
+def nsMucUser := s "http://jabber.org/protocol/muc#user"
+def nsCaps := s "http://jabber.org/protocol/caps"
+def nsVCardUpdate := s "vcard-temp:x:update"
+def nsMuji := s "urn:xmpp:jingle:muji:0"
+def nsMoved := s "urn:xmpp:moved:1"
+def nsIdle := s "urn:xmpp:idle:1"
+def nsMixPresence := s "urn:xmpp:presence:0"
+def nsAddresses := s "http://jabber.org/protocol/address"
+
+/-- looked up by tag alone, the LAST one counts (`for (child : children) if (tag == …) x = …`) -/
+def lastTag (tag : String) (ns : Str) : Head := { tag := s tag, ns := ns, decl := false, anyNs := true, last := true }
+/-- an extension element: own namespace, looked up by tag and namespace, the last one counts -/
+def lastExt (tag : String) (ns : Str) : Head := { tag := s tag, ns := ns, decl := true, anyNs := false, last := true }
+
+def mucItemFieldsIn (ns : Str) : List Field := [
+  .attr (s "affiliation") (.enumL (["outcast", "none", "member", "admin", "owner"].map s)) true,
+  .attr (s "jid") .str true, .attr (s "nick") .str true,
+  .attr (s "role") (.enumL (["none", "visitor", "participant", "moderator"].map s)) true,
+  .child (anyHead "actor" ns) [.attr (s "jid") .str true] .wrapOmit,
+  .textChild (anyHead "reason" ns) .str true]
+
+/-- XEP-0033 `<addresses/>` as `QXmppStanza` reads and writes it: only addresses with a jid and a type are kept -/
+def addressesField : Field :=
+  .child (declHead "addresses" nsAddresses) [
+    .many (anyHead "address" nsAddresses) [.attr (s "delivered") (.flag [s "true"]) true, .attr (s "desc") .str true,
+      .attrReq (s "jid") .str, .attrReq (s "type") .str] false] .wrapOmit
+
+def presenceTypes : List Str := ["error", "unavailable", "subscribe", "subscribed", "unsubscribe", "unsubscribed", "probe"].map s
+def presenceShows : List Str := ["away", "xa", "dnd", "chat", "invisible"].map s
+
+def Presence : Schema :=
+  { head := inhHead "presence" nsClient, check := .unchecked, inh := nsClient,
+    fields := [
+      .attr (s "xml:lang") .str true, .attr (s "id") .str true, .attr (s "to") .str true, .attr (s "from") .str true,
+      .attr (s "type") (.enum presenceTypes) true,
+      .child (lastTag "show" nsClient) [.text (.enum presenceShows)] .wrapOmit,
+      .child (lastTag "status" nsClient) [.text .str] .wrapOmit,
+      .child (lastTag "priority" nsClient) [.text (.sint 31 true)] .wrapOmit,
+      .child (anyHead "error" nsClient) stanzaErrorFields errorGuard,
+      .child (lastExt "x" nsMuc) [.textChild (anyHead "password" nsMuc) .str true] .optional,
+      .child (lastExt "x" nsMucUser) [
+        .child (anyHead "item" nsMucUser) (mucItemFieldsIn nsMucUser) .wrapOmit,
+        .many (anyHead "status" nsMucUser) [.attr (s "code") (.sint 31 false) false] false] .wrapOmit,
+      .child (lastExt "c" nsCaps) [.attr (s "hash") .str true, .attr (s "node") .str true, .attr (s "ver") .b64 true]
+        (.wrapAll [true, true, true]),
+      .child (lastExt "moved" nsMoved) [.textChild (anyHead "old-jid" nsMoved) .str true] .wrapOmit,
+      .child (lastExt "idle" nsIdle) [.attr (s "since") .dateTime true] .wrapOmit,
+      .child (lastExt "mix" nsMixPresence) [.textChild (anyHead "jid" nsMixPresence) .str true,
+        .textChild (anyHead "nick" nsMixPresence) .str true] .wrapOmit,
+      addressesField,
+      .rest nsClient [⟨some (s "show"), none⟩, ⟨some (s "status"), none⟩, ⟨some (s "priority"), none⟩, ⟨some (s "error"), none⟩,
+        ⟨some (s "x"), some nsMuc⟩, ⟨some (s "x"), some nsMucUser⟩, ⟨some (s "c"), some nsCaps⟩, ⟨none, some nsVCardUpdate⟩,
+        ⟨some (s "muji"), some nsMuji⟩, ⟨some (s "moved"), some nsMoved⟩, ⟨some (s "idle"), some nsIdle⟩,
+        ⟨some (s "mix"), some nsMixPresence⟩, ⟨some (s "addresses"), some nsAddresses⟩]] }
+
+/-! `QXmppMessage`, core (src/base/QXmppMessage.cpp:1558-2160).  `parse` hands every child except `<error/>` and the XEP-0033
+`<addresses/>` to `parseExtension`, a chain of `if (tag/namespace …)`; what no branch takes is an unknown extension.
+Typed here, in the order `toXml` writes: `xml:lang`, id, to, from, type (absent / unknown ⇒ normal, always written); error;
+carbons `<private/>`; the four processing hints (one flag each); stanza ids; origin id (a `QString` written when non-NULL);
+subject, body, thread + parent (by tag alone, last one wins; parent only with a thread); out-of-band URLs; chat state (ANY tag
+in the chat-states namespace, unknown ⇒ none); receipt request; attention; direct MUC invitation (written with a jid);
+replace id; markable; attach-to id; spoiler (+ hint); MIX invitation; trust message; reply; XEP-0033 addresses; the rest.
+Claimed by `parseExtension` but NOT modelled — documents containing them are outside the schema (harness): MIX `<mix/>`
+(both children always written), EME (the name is derived from the namespace), XHTML-IM (raw markup), delay / legacy delay,
+`<received/>` (falls back to the message id, excludes `<request/>`), BoB data, chat markers other than `<markable/>`, JMI,
+reactions, file sharing / sources, call invites, fallback markers. -/
+
+def nsHints := s "urn:xmpp:hints"
+def nsSid := s "urn:xmpp:sid:0"
+def nsMixCore := s "urn:xmpp:mix:core:1"
+def nsEme := s "urn:xmpp:eme:0"
+def nsXhtmlIm := s "http://jabber.org/protocol/xhtml-im"
+def nsChatStates := s "http://jabber.org/protocol/chatstates"
+def nsLegacyDelay := s "jabber:x:delay"
+def nsConference := s "jabber:x:conference"
+def nsDelay := s "urn:xmpp:delay"
+def nsReceipts := s "urn:xmpp:receipts"
+def nsAttention := s "urn:xmpp:attention:0"
+def nsBob := s "urn:xmpp:bob"
+def nsCorrect := s "urn:xmpp:message-correct:0"
+def nsMarkers := s "urn:xmpp:chat-markers:0"
+def nsJmi := s "urn:xmpp:jingle-message:0"
+def nsAttaching := s "urn:xmpp:message-attaching:1"
+def nsSpoiler := s "urn:xmpp:spoiler:0"
+def nsReactions := s "urn:xmpp:reactions:0"
+def nsSfs := s "urn:xmpp:sfs:0"
+def nsReply := s "urn:xmpp:reply:0"
+def nsCallInvites := s "urn:xmpp:call-invites:0"
+def nsFallback := s "urn:xmpp:fallback:0"
+
+def messageTypes : List Str := ["error", "normal", "chat", "groupchat", "headline"].map s
+def chatStates : List Str := ["active", "inactive", "gone", "composing", "paused"].map s
+def pat (tag : String) (ns : Str) : Pat := ⟨some (s tag), some ns⟩
+def patTag (tag : String) : Pat := ⟨some (s tag), none⟩
+def patNs (ns : Str) : Pat := ⟨none, some ns⟩
+
+def Message : Schema :=
+  { head := inhHead "message" nsClient, check := .unchecked, inh := nsClient,
+    fields := [
+      .attr (s "xml:lang") .str true, .attr (s "id") .str true, .attr (s "to") .str true, .attr (s "from") .str true,
+      .attr (s "type") (.enumD messageTypes 1) false,
+      .child (anyHead "error" nsClient) stanzaErrorFields errorGuard,
+      .flagChild (lastExt "private" nsCarbons),
+      .flagChild (lastExt "no-permanent-store" nsHints), .flagChild (lastExt "no-store" nsHints),
+      .flagChild (lastExt "no-copy" nsHints), .flagChild (lastExt "store" nsHints),
+      .many (declHead "stanza-id" nsSid) [.attr (s "id") .str false, .attr (s "by") .str true] false,
+      .child (lastExt "origin-id" nsSid) [.attr (s "id") .str false] .optional,
+      .child (lastTag "subject" nsClient) [.text .str] .wrapOmit,
+      .child (lastTag "body" nsClient) [.text .str] .wrapOmit,
+      .child (lastTag "thread" nsClient) [.attr (s "parent") .str true, .text .str] (.wrapGuard [false, true]),
+      .many (declHead "x" nsOob) [.textChild (anyHead "url" nsOob) .str false, .child (anyHead "desc" nsOob) [.text .str] .optional] false,
+      -- (`<body/>`, `<subject/>`, `<thread/>` are taken by tag alone before the namespace is looked at, `<error/>` is never handed over)
+      .tagChild nsChatStates true false chatStates [s "body", s "subject", s "thread", s "error"] false true [],
+      .flagChild (lastExt "request" nsReceipts),
+      .flagChild (lastExt "attention" nsAttention),
+      .child (lastExt "x" nsConference) [.attr (s "jid") .str true, .attr (s "password") .str true, .attr (s "reason") .str true]
+        (.wrapGuard [true, false, false]),
+      .child (lastExt "replace" nsCorrect) [.attr (s "id") .str true] .wrapOmit,
+      .flagChild (lastExt "markable" nsMarkers),
+      .child (lastExt "attach-to" nsAttaching) [.attr (s "id") .str true] .wrapOmit,
+      .child (lastExt "spoiler" nsSpoiler) [.text .str] .optional,
+      .child (lastExt "invitation" nsMixMisc) MixInvitation.fields .optional,
+      .child (lastExt "trust-message" nsTm) TrustMessageElement.fields .optional,
+      .child (lastExt "reply" nsReply) [.attr (s "to") .str true, .attr (s "id") .str false] .optional,
+      addressesField,
+      .rest nsClient [patTag "error", pat "addresses" nsAddresses, pat "private" nsCarbons,
+        pat "no-permanent-store" nsHints, pat "no-store" nsHints, pat "no-copy" nsHints, pat "store" nsHints,
+        pat "stanza-id" nsSid, pat "origin-id" nsSid, pat "mix" nsMixCore, pat "encryption" nsEme,
+        patTag "subject", patTag "body", patTag "thread", pat "x" nsLegacyDelay, pat "x" nsConference, pat "x" nsOob,
+        pat "html" nsXhtmlIm, patNs nsChatStates, pat "received" nsReceipts, pat "request" nsReceipts, pat "delay" nsDelay,
+        pat "attention" nsAttention, pat "data" nsBob, pat "replace" nsCorrect, patNs nsMarkers, patNs nsJmi,
+        pat "attach-to" nsAttaching, pat "spoiler" nsSpoiler, pat "invitation" nsMixMisc, pat "trust-message" nsTm,
+        pat "reactions" nsReactions, pat "file-sharing" nsSfs, pat "sources" nsSfs, pat "reply" nsReply, patNs nsCallInvites,
+        pat "fallback" nsFallback]] }
+
+/-! ### `QXmppJingleRtpEncryption` / `QXmppJingleRtpCryptoElement` (src/base/QXmppJingleData.cpp:2330-2470)
+
+A `<crypto/>` is written only with BOTH `crypto-suite` and `key-params` (`attrReq`); since /repo 74a3584 `parse` skips the
+`<crypto/>` children (any namespace) that lack one of them, and `<encryption/>` is written only when a crypto element is left
+(`wrapGuard` on the list; `required` alone is not written).  Before that an invalid `<crypto/>` was kept, `<encryption/>`
+written empty and nothing on the next pass (fixed findings …:QXmppJingleRtpEncryption, …:QXmppJingleIq::Content).
+Modelled as the `<encryption/>` child of a holder. -/
+
+def nsJingleRtp := s "urn:xmpp:jingle:apps:rtp:1"
+def jingleCryptoFields : List Field := [
+  .attr (s "tag") (.nat 32) false, .attrReq (s "crypto-suite") .str, .attrReq (s "key-params") .str,
+  .attr (s "session-params") .str true]
+def JingleRtpEncryption : Schema :=
+  { head := { tag := s "x", ns := [], decl := false, anyNs := false }, check := .unchecked, inh := [],
+    fields := [.child (declHead "encryption" nsJingleRtp) [
+      .attr (s "required") (.flag [s "1", s "true"]) true,
+      .many (anyHead "crypto" nsJingleRtp) jingleCryptoFields false] (.wrapGuard [false, true])] }
+
 /-- every modelled class by the name the harness uses -/
 def all : List (String × Schema) := [
   ("SmEnable", SmEnable), ("SmEnabled", SmEnabled), ("SmResume", SmResume), ("SmResumed", SmResumed),
@@ -556,7 +734,9 @@ def all : List (String × Schema) := [
   ("VCardAddress", VCardAddress), ("VCardEmail", VCardEmail), ("VCardPhone", VCardPhone),
   ("MamQueryIq", MamQueryIq),
   ("PubSubSubscription", PubSubSubscription), ("PubSubSubscriptionEvent", PubSubSubscriptionEvent),
-  ("PubSubSubscriptionOwner", PubSubSubscriptionOwner)]
+  ("PubSubSubscriptionOwner", PubSubSubscriptionOwner),
+  ("Iq", Iq), ("Presence", Presence), ("Message", Message),
+  ("JingleRtpEncryption", JingleRtpEncryption)]
 
 def find (name : String) : Option Schema := (all.find? (·.1 == name)).map (·.2)
 
